@@ -452,3 +452,12 @@ Definition builtin_check1_old (t : tdecl) : res bool :=
     else if list_eqb fd_eqb (sort_by f_name (t_feats t)) (sort_by f_name (t_feats b)) then Ok true
     else Err EValue
   end.
+
+(* ================================================================== deepening: premises and specifications added for
+   C12_load_preserves_wf, C12_reemit_fixpoint, C12_load_total, C12_fuel_from_order, C12_permutation_invariant_all *)
+(* every typeDescription has a name with text (an element <name/> without text is outside the model: the reader
+   raises AttributeError on None.strip()) *)
+Definition named_descrb (d : descr) : bool := forallb (fun t => negb (String.eqb (t_name t) "")) (prep d).
+(* the typeDescriptions have distinct names after trimming (the reader keeps them in a dict: the model reads the first
+   one of a name, the code the last one with the features of both; descriptors with a repeated name are outside the model) *)
+Definition uniq_descrb (d : descr) : bool := nodupb (map t_name (prep d)).
